@@ -133,6 +133,9 @@ func writeEvidence(p *Plan, agg *Agg, recs []*violRec, validated, mismatches, nV
 		return err
 	}
 	dir := filepath.Join(VerifDir, "evidence")
+	if d := os.Getenv("GOSYM_EVIDENCE_DIR"); d != "" {
+		dir = d // mutation-testing runs (tools/mutest.sh) keep the committed evidence untouched
+	}
 	os.MkdirAll(dir, 0755)
 	return os.WriteFile(filepath.Join(dir, p.Property+".json"), b, 0644)
 }
